@@ -183,14 +183,15 @@ VALS = {"v": 3, "ws": [4], "extra2": 6, "k": "kx", "w": 7, "a": 8, "n": 9, "retr
 
 
 def _where(nested, k, v):
-    """Where did the value given for keyword k end up in the object the call built / updated?"""
+    """All the places where the value given for keyword k is found in the object the call built / updated."""
     d = getattr(nested, "__dict__", {})
+    out = []
     if k in d and d[k] == v and type(d[k]) is type(v):
-        return "attr"
+        out.append("attr")
     for name, val in d.items():
         if isinstance(val, dict) and k in val and val[k] == v:
-            return "in:" + name
-    return "nowhere"
+            out.append("in:" + name)
+    return out
 
 
 def _nested_of(res, m, ns):
@@ -235,22 +236,31 @@ def run_deliver(_):
                 args = ()
                 if m["fam"] == "elem" and ST[m["cls"]]["ty"][m["attr"]]["fam"] == "map":
                     args = ("kx",)
-                res, out = "ok", None
-                try:
-                    if m["fam"] == "init":
-                        out = cls(**send)
-                    else:
-                        recv = cls(**({"k": "r"} if m["cls"] == "KChild" else {}))
-                        if m["fam"] == "elem" and m["verb"] == "update":
-                            # an element to update: built by the matching with_<item> helper, then addressed by index / key
-                            item = cls.__spec_class__.attrs[m["attr"]].item_name
-                            recv = getattr(recv, "with_" + item)(*args, **({"k": "kx"} if "k" in virt else {}))
-                            args = ("kx",) if args or isinstance(getattr(recv, m["attr"]), KeyedList) else (0,)
-                        out = getattr(recv, name)(*args, **send)
-                    nested = _nested_of(out, m, ns)
-                    got = [{"n": k, "where": _where(nested, k, v)} for k, v in sorted(send.items())]
-                except Exception as e:  # noqa: BLE001
-                    res, got = type(e).__name__, [{"n": k, "where": "nowhere"} for k in sorted(send)]
-                events.append({"kind": "deliver", "m": m, "method": name, "round": rnd, "res": res, "kws": got,
-                               "sig": [{"n": p.name, "kind": KIND[p.kind], "hasd": p.default is not inspect.Parameter.empty, "virtual": p.name not in real_names} for p in params]})
+                forms = [("kw", None)]
+                if m["fam"] in ("scalar", "elem") and len(send) >= 2:
+                    # the documented dict form of the value (constructor arguments) for all but one name, that name as a keyword next to it
+                    forms.append(("dict", "k" if "k" in send else sorted(send)[-1]))
+                for form, last in forms:
+                    res, out = "ok", None
+                    try:
+                        if m["fam"] == "init":
+                            out = cls(**send)
+                        else:
+                            recv = cls(**({"k": "r"} if m["cls"] == "KChild" else {}))
+                            cargs = args
+                            if m["fam"] == "elem" and m["verb"] == "update":
+                                # an element to update: built by the matching with_<item> helper, then addressed by index / key
+                                item = cls.__spec_class__.attrs[m["attr"]].item_name
+                                recv = getattr(recv, "with_" + item)(*args, **({"k": "kx"} if "k" in virt else {}))
+                                cargs = ("kx",) if args or isinstance(getattr(recv, m["attr"]), KeyedList) else (0,)
+                            if form == "dict":
+                                out = getattr(recv, name)(*cargs, {k: v for k, v in send.items() if k != last}, **{last: send[last]})
+                            else:
+                                out = getattr(recv, name)(*cargs, **send)
+                        nested = _nested_of(out, m, ns)
+                        got = [{"n": k, "where": _where(nested, k, v)} for k, v in sorted(send.items())]
+                    except Exception as e:  # noqa: BLE001
+                        res, got = type(e).__name__, [{"n": k, "where": []} for k in sorted(send)]
+                    events.append({"kind": "deliver", "m": m, "method": name, "round": rnd, "form": form, "res": res, "kws": got,
+                                   "sig": [{"n": p.name, "kind": KIND[p.kind], "hasd": p.default is not inspect.Parameter.empty, "virtual": p.name not in real_names} for p in params]})
     return events
